@@ -117,9 +117,17 @@ def _(value: Enum):
 @customize_repr
 def _(value: Flag):
     name = type(value).__qualname__
-    return " | ".join(
-        f"{name}.{flag.name}" for flag in type(value) if flag in value
-    ) or f"{name}(0)"
+    members = [flag for flag in type(value) if flag in value]
+    parts = [f"{name}.{flag.name}" for flag in members]
+
+    # bits without a name (an IntFlag keeps them)
+    rest = value.value
+    for flag in members:
+        rest &= ~flag.value
+    if rest:
+        parts.append(f"{name}({rest})")
+
+    return " | ".join(parts) or f"{name}(0)"
 
 
 @customize_repr
